@@ -15,6 +15,7 @@ import (
 )
 
 type Obligation struct {
+	CrossChecked []string // thorough tier: solvers (and reseeded runs) that also answered unsat
 	Name    string
 	Kind    string
 	Func    string
